@@ -77,6 +77,11 @@ def valueLen : BigUint → Nat
   | small _ => 1
   | large v => v.length
 
+/-- all limbs above the lowest are zero -/
+def fitsU64 : BigUint → Bool
+  | small _ => true
+  | large v => (v.drop 1).all (· == 0)
+
 def makeLarge : BigUint → BigUint
   | small n => large [n]
   | large v => large v
@@ -91,12 +96,6 @@ def set : BigUint → Nat → Nat → BigUint
       else if x = 0 then small n
       else large (setL [n] i x)
   | large v, i, x => large (setL v i x)
-
-def valuePush (b : BigUint) (x : Nat) : BigUint :=
-  if x = 0 then b else
-  match b with
-  | small n => large [n, x]
-  | large v => large (v ++ [x])
 
 /-- the loop of `add_assign_internal`, indices `i .. n-1`; returns the final carry -/
 def aaiLoop (other : BigUint) (d shift : Nat) (n : Nat) : Nat → BigUint → Nat → BigUint × Nat
@@ -113,7 +112,7 @@ termination_by i _ _ => n - i
 def addAssignInternal (self other : BigUint) (d shift : Nat) : BigUint :=
   let n := max self.valueLen (other.valueLen + shift)
   let (s, carry) := aaiLoop other d shift n 0 self 0
-  if carry ≠ 0 then s.valuePush carry else s
+  if carry ≠ 0 then s.set n carry else s
 
 def add (self other : BigUint) : BigUint := addAssignInternal self other 1 0
 
@@ -274,7 +273,7 @@ where
 def pow (a b : BigUint) : R BigUint :=
   if a.isZero && b.isZero then .error .zeroPowZero
   else if b.isZero then .ok (small 1)
-  else if b.valueLen > 1 then .error .exponentTooLarge
+  else if !b.fitsU64 then .error .exponentTooLarge
   else .ok (powInternal a (b.get 0))
 
 /-- number of bits; `none` is the `ilog2(0)` panic of the `Small(0)` arm -/
@@ -286,11 +285,8 @@ where
   | [], _, acc => acc
   | x :: xs, i, acc => go xs (i + 1) (if x ≠ 0 then Nat.log2 x + 1 + i * 64 else acc)
 
-def tryAsUsize : BigUint → R Nat
-  | small n => .ok n
-  | large v => match v with
-    | [x] => .ok x
-    | _ => .error .outOfRange
+def tryAsUsize (b : BigUint) : R Nat :=
+  if b.fitsU64 then .ok (b.get 0) else .error .outOfRange
 
 def lshiftTimes : Nat → BigUint → R BigUint
   | 0, x => .ok x
@@ -380,7 +376,7 @@ def rootLoop (self n : BigUint) : Nat → BigUint → BigUint → R (BigUint × 
 
 def rootN (self n : BigUint) : R (BigUint × Bool) :=
   if beq self (small 0) || beq self (small 1) || beq n (small 1) then .ok (self, true)
-  else if n.valueLen > 1 then .error .outOfRange
+  else if !n.fitsU64 then .error .outOfRange
   else
     match bits self with
     | none => .error .panic
